@@ -108,6 +108,9 @@ structure Perm where
   method : String
   rawRequest : Bool
   rawResponse : Bool
+  certText : String     -- string(Request.ServerTlsCert)
+  credsText : String    -- "" when Request.ClientTlsCreds == nil, else key ++ "|" ++ cert
+  recvLimit : Nat       -- Request.MessageReceiveLimit
   suite : String
   case : Case
   test : Test
@@ -167,6 +170,12 @@ def namePrefix (s : Suite) (c : Case) : List String :=
 
 def serviceName : String := "connectrpc.conformance.v1.ConformanceService"
 
+/-- `clientReceiveLimit` (tied to the tree by `Generated.C07Facts` + `Props.C07.receive_limit_fact`) -/
+def clientReceiveLimit : Nat := 1048576
+
+/-- `[]byte("PLACEHOLDER")`: "to be replaced with actual cert provided by server" -/
+def placeholder : String := "PLACEHOLDER"
+
 /-- the stream type → method switch of `expandCases` -/
 def defaultMethod : ST → String
   | .unary => "Unary" | .client => "ClientStream" | .server => "ServerStream"
@@ -183,6 +192,9 @@ def mkPerm (join : List String → String) (s : Suite) (c : Case) (pre : List St
     service := if t.service = "" then serviceName else t.service,
     method := if t.service = "" then defaultMethod t.st else t.method,
     rawRequest := t.rawRequest, rawResponse := t.rawResponse,
+    certText := if c.tls then placeholder else "",
+    credsText := if c.tls then (if c.certs then placeholder ++ "|" ++ placeholder else "") else "",
+    recvLimit := clientReceiveLimit,
     suite := s.name, case := c, test := t }
 
 /-- Go `expandCases`; `i` = index of the head test case, `acc` = `lib.testCases` so far -/
